@@ -35,7 +35,7 @@ def Pickle.Preserves (k : Kind) : Prop :=
 def Pickle.TablesRekeyed (k : Kind) : Prop :=
   ∀ (ρ : Nat → Nat), Inj ρ → ∀ M : PM, ∀ m ∈ M.models,
     (k.locked = true → (alookup (ρ m) (roundtrip k ρ M).ctx) = some ((lookupD m M.ctx).map ρ)) ∧
-    (k.graph = true → alookup (ρ m) (roundtrip k ρ M).graphs = some (M.stateOf m)) ∧
+    (k.graph = true → alookup (ρ m) (roundtrip k ρ M).graphs = some (M.stateOf m + 1)) ∧
     (k.qmodel = true → (alookup (ρ m) (roundtrip k ρ M).qdict).isSome = (alookup m M.qdict).isSome)
 
 /-- full-strength statements (false on the pinned tree, see the counterexamples) -/
@@ -59,15 +59,15 @@ theorem C15_rekey (k : Kind) (hg : k.graph = false) (hl : k.locked = true) (ρ :
     exact alookup_of_list_none _ ρ x M.models hx
 
 /-- **regeneration, graph classes**: exactly one fresh graph per model, under the new id, in
-registration order, showing the model's current state; no stale key. -/
+registration order, showing the model's current state as active (`s + 1`); no stale key. -/
 theorem C15_graphs (k : Kind) (hg : k.graph = true) (ρ : Nat → Nat) (hρ : Inj ρ) (M : PM) :
     (roundtrip k ρ M).graphs.map (·.1) = M.models.map ρ ∧
-    (∀ m ∈ M.models, alookup (ρ m) (roundtrip k ρ M).graphs = some (M.stateOf m)) ∧
+    (∀ m ∈ M.models, alookup (ρ m) (roundtrip k ρ M).graphs = some (M.stateOf m + 1)) ∧
     (∀ x, (∀ m ∈ M.models, ρ m ≠ x) → alookup x (roundtrip k ρ M).graphs = none) := by
   rw [graph_graphs k hg ρ hρ M]
   refine ⟨by simp [List.map_map, Function.comp_def], ?_, ?_⟩
   · intro m hm
-    exact alookup_of_list ρ hρ (fun x => M.stateOf x) m M.models hm
+    exact alookup_of_list ρ hρ (fun x => M.stateOf x + 1) m M.models hm
   · intro x hx
     exact alookup_of_list_none _ ρ x M.models hx
 
@@ -156,7 +156,7 @@ theorem exRho_inj : Inj exRho := by intro a b h; unfold exRho at h; omega
 def exDelta : Delta := fun _ s ev => if s = 0 ∧ ev = 0 then some 1 else none
 
 /-- a locked graph machine with one model `1` holding the machine lock `10` -/
-def exLG : PM := { models := [1], mstate := [(1, 0)], mctx := [10], ctx := [(1, [10])], graphs := [(1, 0)] }
+def exLG : PM := { models := [1], mstate := [(1, 0)], mctx := [10], ctx := [(1, [10])], graphs := [(1, 1)] }
 /-- an async machine with `queued='model'` and one model -/
 def exQ : PM := { models := [1], mstate := [(1, 0)], qdict := [(1, [])] }
 
@@ -205,6 +205,6 @@ example : (run { locked := true } exDelta [111] (roundtrip { locked := true } ex
     [.trigger 0 102 0, .trigger 0 101 0]).2 = [.blocked 111, .done [110] true 1] := by decide
 -- the defect, concretely: stale key 1 kept, the new id 101 missing
 example : (roundtrip { graph := true, locked := true } exRho exLG).ctx = [(1, [110])] := by decide
-example : (roundtrip { graph := true, locked := true } exRho exLG).graphs = [(101, 0)] := by decide
+example : (roundtrip { graph := true, locked := true } exRho exLG).graphs = [(101, 1)] := by decide
 
 end TM
